@@ -121,6 +121,58 @@ def run(check):
                 if miss:
                     ob.detail = 'no conversion row for %s' % miss
                 check.add(ob)
+    # ---- streaming: operator<<(stream, e) inserts exactly the abbreviation of e
+    from ..symex import SymEx, State, Ptr, TRUE
+    ns = 0
+    streamed_types = set()
+    for o in units.ast.walk():
+        if o.get('kind') == 'FunctionDecl' and o.get('name') == 'operator<<' and low.has_body(o) and not low._in_use_ns(o):
+            ps = [c for c in o.get('inner', ()) if c.get('kind') == 'ParmVarDecl']
+            if len(ps) != 2:
+                continue
+            try:
+                t1 = low.ntype(ps[1])
+            except (Unsupported, ValueError):
+                continue
+            if t1[0] != 'enum' or t1[1] not in enums:
+                continue
+            en = t1[1]
+            short = en.replace('Unit::', '').replace('::', '_')
+            ob = Ob('C08.stream.%s' % short, 'REAL', 'operator<<(std::ostream&, %s)' % en, 'include/PhQ/%s.hpp' % (en.replace('::', '/') if en.startswith('Unit::') else en.split('::')[0]))
+            ob.backend = 'phqv symex (token lists)'
+            ob.text = 'for every enumerator e: operator<<(stream, e) inserts exactly one item, Abbreviation(e) (total and parsing back: C08.abbr.total+parse.%s), and returns the stream' % short
+            try:
+                f = low.lower_func(o)
+                S = SymEx(low)
+                st = State()
+                osb = S.newbox(st, S.undef_value(('ostream',)))
+                e = S.sym('e')
+                r = S.call(f, [Ptr(osb, ()), e], st)
+                toks = list(st.mem[osb]['toks'][1]) if isinstance(st.mem[osb]['toks'], tuple) else list(st.mem[osb]['toks'])
+                good = len(toks) == 1 and toks[0][0] == TRUE and toks[0][1][0] == 'ABBR' and toks[0][1][2] == e and isinstance(r, Ptr) and r.box == osb
+                ob.status = 'discharged' if good else 'failed'
+                if not good:
+                    ob.detail = 'streams %r' % (toks,)
+                check.under_contract(f)
+            except Unsupported as ex:
+                ob.status, ob.detail = 'error', 'Unsupported: %s' % ex
+            check.add(ob)
+            ns += 1
+            streamed_types.add(en)
+            if ob.status == 'failed':
+                cpp = '#include <%s>\n#include <sstream>\n#include <cstdio>\nusing namespace PhQ;\nint main() { int bad = 0; for (int i = %d; i <= %d; ++i) { const auto e = static_cast<%s>(i); std::ostringstream s; s << e; if (s.str() != std::string(PhQ::Abbreviation(e))) { std::printf("MISMATCH enumerator %%d streams as \\"%%s\\", abbreviation \\"%%s\\"\\n", i, s.str().c_str(), std::string(PhQ::Abbreviation(e)).c_str()); bad++; } } return bad ? 1 : 0; }\n' % (
+                    header_of(en), min(v for _, v in low.enums[en].enumerators), max(v for _, v in low.enums[en].enumerators), cpp_enum(en))
+                rec = {'property': 'C08', 'obligation': ob.name, 'function': ob.function, 'verifier_output': ob.detail, 'cpp': cpp, 'confirmed': False}
+                r2, err = replay.build_and_run(cpp, os.path.join(check.work, 'replay'), 'r_' + re.sub(r'\W+', '_', ob.name))
+                if err:
+                    rec['replay_error'] = err[:500]
+                elif 'MISMATCH' in r2.stdout:
+                    rec['confirmed'], rec['mismatch'], rec['native_output'] = True, r2.stdout.strip().split('\n')[:5], r2.stdout[:800]
+                from ..ieeeob import write_replay as wr
+                check.violations.append((ob, wr(check, ob, rec), '' if rec['confirmed'] else 'no-failing-input-found'))
+    check.extra['stream_operators_seen'] = ns
+    if ns < 38:
+        check.error('must-fire: expected >= 38 enumeration streaming operators, found %d' % ns)
     check.extra['spelling_rows_seen'] = nrows
     if nrows < 1900:
         check.error('must-fire: expected >= 1900 spelling rows, found %d' % nrows)
